@@ -281,8 +281,8 @@ func c45ApplyOrdered(k c45Kind, pos int, in c45Stream, chunks []int) c45Stream {
 	return out
 }
 
-const c45MaxPermLen = 8     // ParallelMap outputs longer than this are not expanded into permutations
-const c45MaxStreams = 60000 // cap of the possible-stream set
+const c45MaxPermLen = 9      // ParallelMap outputs longer than this are not expanded into permutations
+const c45MaxStreams = 400000 // cap of the possible-stream set
 
 // c45Permutations calls f for every distinct permutation of xs.
 func c45Permutations(xs []int, f func([]int)) {
@@ -340,8 +340,20 @@ func c45SubMultisets(s []int, t int, f func([]int)) {
 // permutation expansion would exceed the caps (the case then has no verdict).
 // dev (nil for the verdict) is only used to DIAGNOSE an observed failure, never to accept one.
 func c45Model(prog []c45Kind, input []int, dev []*c45BatchDev) (set []c45Stream, ok bool) {
+	return c45ModelLens(prog, input, dev, nil)
+}
+
+// c45ModelLens is c45Model; when maxIn != nil it also records the longest possible input of every stage.
+func c45ModelLens(prog []c45Kind, input []int, dev []*c45BatchDev, maxIn []int) (set []c45Stream, ok bool) {
 	cur := []c45Stream{{seq: append([]int(nil), input...)}}
 	for pos, k := range prog {
+		if maxIn != nil {
+			for _, s := range cur {
+				if len(s.seq) > maxIn[pos] {
+					maxIn[pos] = len(s.seq)
+				}
+			}
+		}
 		laterSensitive := false
 		for _, k2 := range prog[pos+1:] {
 			if c45OrderSensitive(k2) {
@@ -554,7 +566,9 @@ func c45Judge(prog []c45Kind, input []int, set []c45Stream, o c45Obs) (sig, deta
 	if o.runError != nil {
 		return "materialisation-failed", fmt.Sprintf("Run returned %v", o.runError)
 	}
-	canon, lens := c45Canonical(prog, input)
+	canon, _ := c45Canonical(prog, input)
+	lens := make([]int, len(prog)) // longest possible input of every stage (bounds of the diagnosis)
+	c45ModelLens(prog, input, nil, lens)
 	what := fmt.Sprintf("list semantics: %s then %s (%d possible streams)", c45Str(canon.seq), c45ErrsStr(canon.errs), len(set))
 	got := fmt.Sprintf("collected %s then %s", c45Str(o.items), c45ObsTerminal(o))
 	if !o.done {
@@ -823,6 +837,9 @@ func c45ScenarioLinear(bud *c45Budget, cur **vsched.Enum) {
 						// permutation expansion too large: no verdict for this case (engine cap)
 						e.St.Invalid++
 						e.St.InvalidReasons["possible-stream set too large (ParallelMap before an order-sensitive stage)"]++
+						if e.St.Invalid <= 3 {
+							r.Note("linear-pipelines: no verdict (possible-stream set too large): %s", caseStr)
+						}
 						continue
 					}
 					if int64(len(set)) > maxSet {
